@@ -12,7 +12,7 @@ import (
 func init() {
 	register(&Prop{
 		ID:             "C16",
-		Pkgs:           []string{"service/transaction", "service/contract"},
+		Pkgs:           []string{"service/transaction", "service/contract", "service/state", "icon/iiss"},
 		Run:            runC16,
 		MinObligations: 16,
 		Technique:      "static analysis: guard dominance (logs/messages only on success, rollback only on failure), must-pass-through of the snapshot restore on every failing/unwinding path of the call-frame stack, pairing of the status transition with the world-state rollback, balance re-read after rollback",
@@ -33,6 +33,7 @@ func init() {
 }
 
 func runC16(c *Ctx) {
+	runC16Extra(c)
 	ex := c.mustFn("service/transaction", "transactionHandler", "Execute")
 	if ex != nil {
 		// ---- logs-on-success
@@ -223,4 +224,123 @@ func runC16(c *Ctx) {
 		}
 	}
 	_ = token.NoPos
+}
+
+// runC16Extra: rules added after independently produced mutants were missed:
+// whatever a snapshot captures, the rollback restores.
+func runC16Extra(c *Ctx) {
+	// (a)/(b) every sub-state captured by GetSnapshot is restored by Reset
+	for _, spec := range []struct{ pkg, typ, what string }{
+		{"service/state", "worldStateImpl", "world state"},
+		{"icon/iiss", "ExtensionStateImpl", "IISS extension state"},
+	} {
+		gs := c.mustFn(spec.pkg, spec.typ, "GetSnapshot")
+		rs := c.mustFn(spec.pkg, spec.typ, "Reset")
+		if gs == nil || rs == nil {
+			continue
+		}
+		captured := map[string]bool{}
+		for _, cs := range c.calls(gs, byMethod("GetSnapshot")) {
+			r, _ := callArgs(cs.Common())
+			if s := rn(r); strings.HasPrefix(s, "$r.") {
+				captured[strings.TrimPrefix(s, "$r.")] = true
+			}
+		}
+		restored := map[string]bool{}
+		for _, cs := range c.calls(rs, byMethod("Reset")) {
+			r, _ := callArgs(cs.Common())
+			if s := rn(r); strings.HasPrefix(s, "$r.") {
+				restored[strings.TrimPrefix(s, "$r.")] = true
+			}
+		}
+		c.check(len(captured) >= 4, "C16.snapshot-reset-agree", spec.what+": captured parts found", gs.Pos(), fmt.Sprint(len(captured)), "GetSnapshot captures fewer parts than expected")
+		for part := range captured {
+			c.check(restored[part], "C16.snapshot-reset-agree", spec.what+": Reset restores "+part, rs.Pos(), "Reset(snapshot."+part+")", "the snapshot captures "+part+" but Reset does not restore it: what a failed transaction did to it survives the rollback")
+		}
+		// and Reset cannot return before having restored them
+		for _, cs := range c.calls(rs, byMethod("Reset")) {
+			r, _ := callArgs(cs.Common())
+			if !strings.HasPrefix(rn(r), "$r.") {
+				continue
+			}
+			for _, e := range successAlts(rs) {
+				tr, reach := pathAvoiding(rs, nil, isInstr(e.Ret), isInstr(cs.Instr))
+				c.check(!reach, "C16.snapshot-reset-agree", spec.what+": Reset reaches the restore of "+strings.TrimPrefix(rn(r), "$r.")+" on every successful path", cs.Pos(), "no bypass", "Reset can return without restoring it ("+traceString(tr)+")")
+			}
+		}
+	}
+	// (d) cached accounts that do not exist in the target snapshot are cleared
+	if rs := c.fn("service/state", "worldStateImpl", "Reset"); rs != nil {
+		clears := c.calls(rs, byMethod("Clear"))
+		var look callSite
+		for _, cs := range c.calls(rs, byCallee("worldStateImpl).getAccountSnapshotWithKey")) {
+			look = cs
+		}
+		if len(clears) != 1 || look.Instr == nil {
+			c.violate("C16.snapshot-reset-agree", "world Reset clears accounts created after the snapshot", rs.Pos(), "expected a lookup and one Clear()")
+		} else {
+			h := loopHeaderOf(look.Instr.Block())
+			old := pathEdgeFilter
+			pathEdgeFilter = func(p, sb *ssa.BasicBlock) bool {
+				for _, g := range edgeGuard(p, sb) {
+					if bo, ok := g.Cond.(*ssa.BinOp); ok {
+						nonNil := (bo.Op == token.NEQ && g.Pol) || (bo.Op == token.EQL && !g.Pol)
+						if nonNil && (bo.X == look.Instr.Value() || bo.Y == look.Instr.Value()) {
+							return true
+						}
+					}
+				}
+				return false
+			}
+			tr, reach := pathAvoiding(rs, look.Instr, func(in ssa.Instruction) bool { return isReturn(in) || (h != nil && in == h.Instrs[0]) }, isInstr(clears[0].Instr))
+			pathEdgeFilter = old
+			c.check(!reach, "C16.snapshot-reset-agree", "an account that does not exist in the target snapshot is cleared", clears[0].Pos(), "value == nil → as.Clear()", "a cached account created after the snapshot keeps its content after the rollback and is flushed later: a failed transaction leaves an account (and its coins) behind ("+traceString(tr)+")")
+		}
+	}
+	// (c) mutable containers are cloned out of the snapshot, not shared with it
+	if rs := c.fn("service/state", "accountStateImpl", "Reset"); rs != nil {
+		for _, f := range []string{"objCache", "deposits"} {
+			n := 0
+			for _, fs := range fieldStoresAny([]*ssa.Function{rs}, "accountData") {
+				if fieldName(fs.Addr.X.Type(), fs.Addr.Field) != f {
+					continue
+				}
+				n++
+				cl, isCall := fs.Store.Val.(*ssa.Call)
+				c.check(isCall && methodName(cl.Common()) == "Clone", "C16.snapshot-reset-agree", "account Reset takes a private copy of the snapshot's "+f, fs.Store.Pos(), "snapshot."+f+".Clone()", "after Reset the live account shares its "+f+" with the snapshot: later changes rewrite the snapshot that a further rollback restores")
+			}
+			c.check(n >= 1, "C16.snapshot-reset-agree", "account Reset restores "+f, rs.Pos(), fmt.Sprint(n), "not restored")
+		}
+		// storage views (same rule as C14)
+		var a, b []*ssa.Store
+		for _, blk := range rs.Blocks {
+			for _, in := range blk.Instrs {
+				st, ok := in.(*ssa.Store)
+				if !ok || !isNilConst(st.Val) {
+					continue
+				}
+				fa, ok := st.Addr.(*ssa.FieldAddr)
+				if !ok || fieldName(fa.X.Type(), fa.Field) != "store" {
+					continue
+				}
+				if namedOf(fa.X.Type()) == "accountStateImpl" {
+					a = append(a, st)
+				} else if namedOf(fa.X.Type()) == "accountData" {
+					b = append(b, st)
+				}
+			}
+		}
+		c.check(len(a) == 1 && len(b) == 1 && a[0].Block() == b[0].Block(), "C16.snapshot-reset-agree", "Reset to a snapshot without storage drops the storage created since", rs.Pos(), "s.store = nil; s.accountData.store = nil", "storage first written by the failed transaction survives the rollback")
+	}
+	// (e) a blocked sender is rejected before anything is executed
+	if de := c.fn("service/transaction", "transactionHandler", "DoExecute"); de != nil {
+		for _, cs := range c.calls(de, byMethod("Call")) {
+			r, _ := callArgs(cs.Common())
+			if r == nil || !strings.Contains(r.Type().String(), "CallContext") {
+				continue
+			}
+			c.requireAtAny("C16.logs-on-success", "execution starts only after the blocked-sender check (patches excepted)", cs.Instr, "isPatch ∨ checkBlocked() == nil",
+				wTrue("patch", `^\$2$`), wSame("not blocked", `^\$r\.checkBlocked\(\$0\)$`, `^nil$`))
+		}
+	}
 }
